@@ -2,7 +2,7 @@ prop(
     "C10",
     pkg="c10",
     title="Text excluded by ignore comments cannot influence the result",
-    technique="property-based testing (rapid): two-run metamorphic non-interference (replace excluded payload / replace excluded block by blank lines)",
+    technique="property-based testing (rapid) + native coverage-guided fuzzing (go test -fuzz, thorough tier): two-run metamorphic non-interference (replace excluded payload / replace excluded block by blank lines)",
     level="exploration",
     design_ref="DESIGN.md 2/C10",
     stages=[
